@@ -30,6 +30,11 @@ ASSUMPTIONS = [
     "forward error bound 4*(3HT+4)*eps*sum|terms|; realistic defects are O(1) relative",
     "CPU only",
 ]
+ANCHORS = ['pfhedge.nn.functional:pl',
+           'pfhedge.nn.functional:terminal_value',
+           'pfhedge.nn.modules.hedger:Hedger.compute_portfolio',
+           'pfhedge.nn.modules.hedger:Hedger.compute_pl']
+PYTEST_WORKLOAD = True  # thorough tier also runs /repo/tests with these passive monitors attached (DESIGN.md 2.7)
 DECIDING = ["pl.exact", "hedger.pl_identity", "terminal_value.alias"]
 REQUIRED_BRANCHES = ["pl.cost_none", "pl.cost_given", "pl.first_cost_off", "pl.payoff_none", "hedger.compute_portfolio", "hedger.compute_pl"]
 
